@@ -38,6 +38,9 @@ RULE = ('Configurations over all Buildable types (incl. ArgFactory inside Partia
         'convert_py_val_to_cst is emitted, evaluated and compared (type + value). Non-trivial: '
         'generator accepted the configuration and it has >=2 Buildables; distinct = (canon hash, '
         'generator, options).')
+RULE_ADDITIONS = (' Added by the rounds of seeded changes (DESIGN 9.7): ' +
+                  'exec-fails:with_tags-in-plain-generator | NameError | decide after reproduction (emit Tag.new(...)); positional gaps (must be refused); callables with class-typed return annotations; list / tuple / dict sub-fixtures; functools.partial leaves (known finding)')
+RULE = RULE + RULE_ADDITIONS
 ASSUMPTIONS = [
     'a generator exception is a loud refusal (allowed), an inexact program is not',
     'for the value clause a converter exception on a value of a documented type counts as a '
